@@ -144,32 +144,33 @@ def sampleSpec (H : History) : List Ev :=
       (fun c => c.getLast?.map Ev.next) ++
     (srcEvents 0 H).filter Ev.isTerminal
 
-/-! ### sequence_equal (ReactiveX): `true, complete` when all sources completed with equal item lists;
-`false, complete` as soon as a mismatch is known: two sources differ at a position both have reached, or a
-source has completed and another one already has more items; an error first wins -/
+/-! ### sequence_equal (ReactiveX): the sequences are compared position by position, a sequence's END counting as
+its last element (`endColumns`: the items of a source as `Some(d)` = `[d]`, followed by `None` = `[]` once the source
+has completed — the encoding of `Data.optEnc`).
+  * `false, complete` as soon as some position that EVERY source has reached (item or end) carries two different
+    elements — so `1 2` against `1` is decided when the shorter source completes and the longer one has its second
+    item, whichever comes last; with more than two sources the position must be reached by all of them (this is the
+    timing of the code, which zips the extended sequences);
+  * an error ends the output with that error if it arrives before such a position is complete
+    (only the part of the history before the first error is compared);
+  * otherwise `true, complete` when every source has completed (then all extended sequences are equal);
+  * nothing while undecided. -/
 
-def mismatchKnown (k : Nat) (pre : History) : Bool :=
-  (List.range k).any fun i => (List.range k).any fun j =>
-    ((srcItems i pre).zip (srcItems j pre)).any (fun xy => xy.1 != xy.2) ||
-      (completedIn pre i && (srcItems i pre).length < (srcItems j pre).length)
+/-- the items of source `i` followed by its end marker, if it has completed -/
+def endColumn (i : Nat) (H : History) : List Data :=
+  (srcItems i H).map (fun d => Data.lcons d .lnil) ++ (if completedIn H i then [Data.lnil] else [])
 
-def seqVerdict (k : Nat) (pre : History) : Option (List Ev) :=
-  match firstError pre with
-  | some e => some [.error e]
-  | none =>
-    if mismatchKnown k pre then some [.next (.bool false), .complete]
-    else if allCompleted k pre then some [.next (.bool true), .complete]
-    else none
+def endColumns (k : Nat) (H : History) : List (List Data) := (List.range k).map fun i => endColumn i H
 
-/-- the verdict of the shortest prefix that has one -/
-def seqScan (k : Nat) : History → History → List Ev
-  | pre, [] => (seqVerdict k pre).getD []
-  | pre, p :: rest =>
-    match seqVerdict k pre with
-    | some v => v
-    | none => seqScan k (pre ++ [p]) rest
+/-- all components of a tuple are equal -/
+def rowSame (row : List Data) : Bool := row.all fun x => x == row.headD .unit
 
-def sequenceEqualSpec (k : Nat) (H : History) : List Ev := seqScan k [] H
+def sequenceEqualSpec (k : Nat) (H : History) : List Ev :=
+  if (zipRows (endColumns k (beforeError H))).all rowSame then
+    match firstError H with
+    | some e => [.error e]
+    | none => if allCompleted k H then [.next (.bool true), .complete] else []
+  else [.next (.bool false), .complete]
 
 /-! ### flat_map over hot sources: an inner source counts from the moment an outer item selected it; a source
 selected `n` times is subscribed `n` times and every event of it is delivered `n` times.
